@@ -15,13 +15,29 @@
 //
 //	os.WriteFile Create CreateTemp OpenFile(write/create/trunc/append or
 //	non-literal flag) Rename Remove RemoveAll Truncate Link Symlink Mkdir
-//	MkdirAll MkdirTemp; ioutil.WriteFile TempFile TempDir; every function of
-//	renameio, renameio/maybe, aghrenameio; bbolt.Open; a lumberjack.Logger
-//	literal; the methods CloseAtomicallyReplace, CloseReplace, Cleanup (no
-//	arguments) and Truncate.
+//	MkdirAll MkdirTemp CopyFS NewFile OpenRoot OpenInRoot; ioutil.WriteFile
+//	TempFile TempDir; every function of renameio, renameio/maybe,
+//	aghrenameio; bbolt.Open; a lumberjack.Logger literal; the raw system
+//	calls of syscall and golang.org/x/sys/unix that create, open for
+//	writing, write, truncate, rename, link or remove (Open Openat Creat
+//	Write Pwrite Writev Pwritev Truncate Ftruncate Fallocate Rename Renameat
+//	Renameat2 Link Linkat Symlink Symlinkat Unlink Unlinkat Rmdir Mkdir
+//	Mkdirat Sendfile Splice CopyFileRange, and Syscall/Syscall6/RawSyscall*
+//	as such); the methods CloseAtomicallyReplace, CloseReplace, Cleanup (no
+//	arguments), Truncate, and, on any receiver that is not a package, the
+//	os.Root-style methods Create, OpenFile, Remove, RemoveAll, Rename, Mkdir,
+//	MkdirAll, WriteFile.
 //
 // Writes through an *os.File need an os.Create/OpenFile/CreateTemp first and
 // are therefore covered at the opening call.
+//
+// Hand-rolled sequences: a function that both opens/creates a file for
+// writing (os.OpenFile with a write flag, os.Create, os.CreateTemp, a raw
+// open) and renames (os.Rename, a raw rename) additionally gets one row
+// "<hand-rolled>.open+rename" (KHandRolled) at the position of the open: a
+// home-made atomic writer has to be looked at as a whole (own temporary name
+// per save? O_EXCL? fsync before the rename? cleanup on failure?) and cannot
+// be excused call by call.
 package main
 
 import (
@@ -47,6 +63,12 @@ var pkgDirs = []string{
 	"internal/aghrenameio",
 	"internal/configmigrate",
 	"internal/aghos",
+	// further owners / handlers of the same kinds of file: the lease database
+	// of the new DHCP service, the configuration manager of the next API, the
+	// updater (reads the configuration file for its backup)
+	"internal/dhcpsvc",
+	"internal/next/configmgr",
+	"internal/updater",
 }
 
 // import path -> tag used in the callee column
@@ -58,6 +80,8 @@ var apiPkgs = map[string]string{
 	"github.com/AdguardTeam/AdGuardHome/internal/aghrenameio": "aghrenameio",
 	"go.etcd.io/bbolt":                    "bbolt",
 	"gopkg.in/natefinch/lumberjack.v2":    "lumberjack",
+	"syscall":                             "syscall",
+	"golang.org/x/sys/unix":               "unix",
 }
 
 var osKind = map[string]string{
@@ -65,6 +89,25 @@ var osKind = map[string]string{
 	"Rename": "KRename", "Remove": "KRemove", "RemoveAll": "KRemove", "Truncate": "KTruncate",
 	"Link": "KOther", "Symlink": "KOther",
 	"Mkdir": "KMkdir", "MkdirAll": "KMkdir", "MkdirTemp": "KMkdir", "TempDir": "KMkdir",
+	"CopyFS": "KOther", "NewFile": "KOther", "OpenRoot": "KOther", "OpenInRoot": "KOther",
+}
+
+// raw system calls (packages syscall and golang.org/x/sys/unix)
+var sysCalls = map[string]bool{
+	"Open": true, "Openat": true, "Openat2": true, "Creat": true,
+	"Write": true, "Pwrite": true, "Writev": true, "Pwritev": true, "Pwritev2": true,
+	"Truncate": true, "Ftruncate": true, "Fallocate": true,
+	"Rename": true, "Renameat": true, "Renameat2": true,
+	"Link": true, "Linkat": true, "Symlink": true, "Symlinkat": true,
+	"Unlink": true, "Unlinkat": true, "Rmdir": true, "Mkdir": true, "Mkdirat": true,
+	"Sendfile": true, "Splice": true, "CopyFileRange": true,
+	"Syscall": true, "Syscall6": true, "RawSyscall": true, "RawSyscall6": true, "SyscallNoError": true,
+}
+
+// os.Root-style methods: flagged on any receiver that is not an imported package
+var rootMethods = map[string]string{
+	"Create": "KCreate", "OpenFile": "KOpenWrite", "Remove": "KRemove", "RemoveAll": "KRemove",
+	"Rename": "KRename", "Mkdir": "KMkdir", "MkdirAll": "KMkdir", "WriteFile": "KWriteFile",
 }
 
 type row struct {
@@ -200,6 +243,11 @@ func main() {
 		}
 	}
 	fmt.Printf("c14writers: %d rows, %d files scanned, %d skipped (not linux)\n", len(rows), len(scanned), len(skipped))
+	for _, r := range rows {
+		if r.kind != "KRenameio" && r.kind != "KPendingMethod" {
+			fmt.Printf("  raw %s:%d: %s in %s (%s)\n", r.file, r.line, r.callee, r.fn, r.kind)
+		}
+	}
 }
 
 func scanFile(fset *token.FileSet, f *ast.File, rel string) (rows []row) {
@@ -224,6 +272,27 @@ func scanFile(fset *token.FileSet, f *ast.File, rel string) (rows []row) {
 		rows = append(rows, row{rel, fn, callee, kind, fset.Position(pos).Line})
 	}
 	visit := func(fn string, root ast.Node) {
+		first := len(rows)
+		defer func() {
+			// a function that opens a file for writing AND renames: one extra row
+			var open *row
+			rename := false
+			for i := first; i < len(rows); i++ {
+				r := &rows[i]
+				switch {
+				case r.kind == "KOpenWrite" || r.kind == "KCreate" ||
+					r.kind == "KRawSyscall" && (strings.HasSuffix(r.callee, ".Open") || strings.HasSuffix(r.callee, ".Openat") || strings.HasSuffix(r.callee, ".Creat")):
+					if open == nil {
+						open = r
+					}
+				case r.kind == "KRename" || r.kind == "KRawSyscall" && strings.Contains(r.callee, ".Rename"):
+					rename = true
+				}
+			}
+			if open != nil && rename {
+				rows = append(rows, row{rel, fn, "<hand-rolled>.open+rename", "KHandRolled", open.line})
+			}
+		}()
 		seen := map[*ast.SelectorExpr]bool{}
 		ast.Inspect(root, func(n ast.Node) bool {
 			switch x := n.(type) {
@@ -244,6 +313,10 @@ func scanFile(fset *token.FileSet, f *ast.File, rel string) (rows []row) {
 					}
 				case "Truncate":
 					add(fn, sel.Pos(), "<file>.Truncate", "KTruncate")
+				default:
+					if k, ok := rootMethods[sel.Sel.Name]; ok && !isLocalPackage(sel.X, f) {
+						add(fn, sel.Pos(), "<recv>."+sel.Sel.Name, k)
+					}
 				}
 			case *ast.SelectorExpr:
 				// a function value mentioned without being called
@@ -293,11 +366,35 @@ func pkgFunc(add func(string, token.Pos, string, string), fn string, sel *ast.Se
 		if ast.IsExported(name) && !isTypeName(name) {
 			add(fn, sel.Pos(), tag+"."+name, "KRenameio")
 		}
+	case "syscall", "unix":
+		if sysCalls[name] {
+			add(fn, sel.Pos(), tag+"."+name, "KRawSyscall")
+		}
 	case "bbolt":
 		if name == "Open" {
 			add(fn, sel.Pos(), "bbolt.Open", "KOther")
 		}
 	}
+}
+
+// isLocalPackage: x is an identifier that names an imported package (any
+// package, not only the recognised ones), i.e. x.F is a package function.
+func isLocalPackage(x ast.Expr, f *ast.File) bool {
+	id, ok := x.(*ast.Ident)
+	if !ok || id.Obj != nil {
+		return false
+	}
+	for _, is := range f.Imports {
+		path := strings.Trim(is.Path.Value, "\"`")
+		name := defaultName(path)
+		if is.Name != nil {
+			name = is.Name.Name
+		}
+		if name == id.Name {
+			return true
+		}
+	}
+	return false
 }
 
 // type names of the rename-based packages that occur in declarations
